@@ -15,7 +15,7 @@ var minOblFloor = map[string]int{
 	"C11": 16,
 	"C12": 38, // enumerated: map ranges, clock sites, goroutines on the consensus path
 	"C13": 24, // enumerated: cache inventory
-	"C14": 59, "C15": 18, "C16": 16, "C17": 30, "C18": 23, "C19": 38, "C20": 20, "C21": 27, "C23": 24, "C24": 37, "C25": 40,
+	"C14": 59, "C15": 18, "C16": 16, "C17": 30, "C18": 23, "C19": 38, "C20": 20, "C21": 29, "C23": 24, "C24": 39, "C25": 40,
 	"C26": 24,
 	"C27": 8, // enumerated: loops in the arithmetic closure
 	"C28": 44, "C30": 17, "C31": 5, "C32": 45, "C33": 22, "C34": 12, "C35": 39, "C36": 34, "C37": 6,
